@@ -176,8 +176,16 @@ func solveUncached(query string, opts solveOpts) Verdict {
 		}(s)
 	}
 	last := Verdict{Status: "unknown"}
+	errors := 0
+	var firstErr string
 	for range availableSolvers {
 		a := <-ch
+		if a.st == "error" {
+			errors++
+			if firstErr == "" {
+				firstErr = a.name + ": " + a.out
+			}
+		}
 		if a.st == "unsat" || a.st == "sat" {
 			return Verdict{Status: a.st, Solver: a.name, Seconds: a.secs + secs, Output: a.out}
 		}
@@ -186,6 +194,10 @@ func solveUncached(query string, opts solveOpts) Verdict {
 		} else if last.Output == "" {
 			last.Output = a.out
 		}
+	}
+	if errors == len(availableSolvers) {
+		// every back end rejected the query: a generator bug, never to be mistaken for "undecided"
+		return Verdict{Status: "error", Output: firstErr}
 	}
 	return last
 }
